@@ -45,3 +45,6 @@ package annotations
 //@ ensures implies(result1 != nil, result0 == nil)
 //@ ensures implies(result0 != nil, fresh(result0))
 //@ ensures implies(!indom(attrib.Properties, property), result0 == nil && result1 == nil)
+
+//@ func AnnotationHolder.FileName props C18,C14
+//@ ensures result == holder.fileName
